@@ -863,6 +863,25 @@ Theorem C05_lattice_elements_accepted_linked :
 Proof. split; [exact LinkC04C06.lattice_elems_accepted | exact LinkC04C06.hex_lattice_elems_accepted]. Qed.
 Print Assumptions C05_lattice_elements_accepted_linked.
 
+(* the per-element description for ANY number of lattice cells (LAT loop = lat_phase: develop a
+   lattice cell, delete it, next): the lattice cells are distinct, present and their elements carry
+   transformations (lats_ok); then in the fully developed table [sd] every element of every lattice
+   cell has its cell (ElemOf: listed under its universe, the element's fill and fill transformation,
+   the lattice cell's material, value at p = the lattice cell's at the pulled-back point) *)
+Theorem C05_lat_phase_elems_linked :
+  forall (surf : Type) (teqb : list Rdefinitions.R -> list Rdefinitions.R -> bool)
+         (tr_surf : list Rdefinitions.R -> surf -> surf)
+         (inv : list Rdefinitions.R -> @C06.Model.vec Rdefinitions.R -> @C06.Model.vec Rdefinitions.R)
+         (sense : surf -> @C06.Model.vec Rdefinitions.R -> bool),
+  sense_law tr_surf inv sense -> key_law (@C06.Model.is_nil Rdefinitions.R) teqb inv ->
+  forall fuel lats (s sd : state (list Rdefinitions.R) surf),
+  C05.LinkC06.ready surf s -> C05.LinkC06.lats_ok surf s lats ->
+  C05.LinkC06.lat_phase surf teqb tr_surf fuel lats s = Ok sd ->
+  forall lk elems lcl, In (lk, elems) lats -> dget lk (s_cells s) = Some lcl ->
+  exists keys, Forall2 (C05.LinkC06.ElemOf surf inv sense s lk lcl sd) elems keys.
+Proof. exact C05.LinkC06.lat_phase_elems. Qed.
+Print Assumptions C05_lat_phase_elems_linked.
+
 (* non-vacuity of the two lattice theorems: a concrete table (container 1 filled with universe 1 =
    the lattice cell 5), one element with a translation, a degenerate surface instance that obeys
    both laws; the chain runs: develop_state returns the element cell 6, the FILL loop the cell 7
